@@ -149,7 +149,7 @@ func c16Observe(c *core.Ctx, mask int, other string, want rules.CosmeticOption) 
 		list = append(list, other)
 	}
 	list = util.Shuffle(c.Rng, list)
-	eng := urlfilter.NewEngine(util.Storage(util.Lines(list)))
+	eng := urlfilter.NewEngine(util.StorageSplit(c.Rng, list))
 	req := rules.NewRequest("http://example.org/", "", rules.TypeDocument)
 	res := eng.MatchRequest(req)
 	got := res.GetCosmeticOption()
